@@ -94,7 +94,12 @@ Qed.
 Lemma initial_code_textN v r : initial_code (textN (v :: r)) = if is_param v then Some v else None.
 Proof.
   unfold initial_code, textN, text_of_items.
-  rewrite split_join_dec by (simpl; congruence). cbn [map].
+  rewrite split_join_dec by (simpl; congruence). cbn [map]. cbv zeta.
+  rewrite strip_ws_dec, dec_N_digits.
+  assert (Hn : is_nil (dec (Z.of_N v)) = false).
+  { destruct (dec (Z.of_N v)) eqn:E; [|reflexivity].
+    pose proof (parse_int_dec (Z.of_N v)) as P. rewrite E in P. cbv in P. discriminate P. }
+  rewrite Hn. cbn [negb andb].
   rewrite parse_int_dec. rewrite N2Z.id.
   replace (0 <=? Z.of_N v)%Z with true by (symmetry; apply Z.leb_le; lia). reflexivity.
 Qed.
